@@ -361,8 +361,8 @@ def mala(
         # MALA drift term: step_size^2/2 * gradient
         drift = (step_size**2 / 2.0) * grad_val
 
-        # Gaussian noise term: step_size * N(0,1)
-        noise = step_size * normal.sample(0.0, 1.0)
+        # Gaussian noise term: step_size * N(0,1), one draw per coordinate
+        noise = step_size * normal.sample(jnp.zeros_like(current_val), 1.0)
 
         # Proposed value
         return current_val + drift + noise
